@@ -36,8 +36,12 @@ package service
 //@       ensures result != nil && fresh(result) && result.SchemeName == s0.SchemeName
 //@       modifies nothing
 //@   at fieldstore RequirementData.Schemes assert* all.schemes.of.the.requirement: forall j int :: 0 <= j && j < len(req.Schemes) ==> (exists k int :: 0 <= k && k < len(value) && value[k].SchemeName == req.Schemes[j].SchemeName)
+//   -- ... held in an array of its own: allocated while this requirement is processed (or nil), so a later requirement's
+//   -- appends cannot overwrite it
+//@   at fieldstore RequirementData.Schemes assert* own.array: value.arr == 0 || value.arr > prev(2, alloc())
 //@   at fieldstore RequirementData.Scopes assert* own.scopes: value == req.Scopes
 //@   loop 3 invariant covered: (rs.arr == 0 || rs.arr != schemes.arr) && ranged(3) == req.Schemes && (forall j int :: 0 <= j && j <= rangeidx(3) ==> (exists k int :: 0 <= k && k < len(rs) && rs[k].SchemeName == ranged(3)[j].SchemeName))
+//@   loop 3 invariant own.array: rs.arr == 0 || rs.arr > prev(2, alloc())
 //@   loop 2 modifies elems(*SchemeData)
 //@   loop 2 modifies elems(*RequirementData)
 //@   loop 3 modifies elems(*SchemeData)
